@@ -249,6 +249,18 @@ func (x *Exec) addressOf(e *ast.UnaryExpr, st *State) Val {
 			ty := x.w.goTy(o.Type(), x.model.BV)
 			return Val{T: st.vars[o], Ty: &Ty{K: TPtr, Elem: ty, Go: x.info().Types[e].Type}}
 		}
+	case *ast.IndexExpr:
+		// interior pointer &a[i]: the address is the term elemaddr(region, index);
+		// loads and stores through it are redirected to the element heap. The
+		// pointer may only be used for field access in the same straight-line
+		// region (it must stay syntactically visible).
+		base := x.expr(in.X, st)
+		idx := x.expr(in.Index, st)
+		if base.Ty.K == TSlice {
+			x.safe(st, "index", And(Le(IntLit(0), idx.T), Lt(idx.T, slLen(base.T))), in)
+			x.sym.Func("elemaddr", []Sort{SInt, SInt}, SInt)
+			return Val{T: mk("elemaddr", SInt, slReg(base.T), IdxAdd(slOff(base.T), idx.T)), Ty: &Ty{K: TPtr, Elem: base.Ty.Elem, Go: x.info().Types[e].Type}}
+		}
 	}
 	x.unsupported(e, "unsupported address-of operand")
 	panic("unreachable")
@@ -265,6 +277,12 @@ func (x *Exec) allocCell(st *State, v Val) *Term {
 func (x *Exec) load(st *State, p Val, n ast.Node) Val {
 	if p.Ty.K != TPtr {
 		x.unsupported(n, "dereference of non-pointer")
+	}
+	if p.T.Op == "elemaddr" {
+		_, h := x.elemHeapOf(st, p.Ty.Elem)
+		v := Select(st.sel(h, p.T.Args[0]), p.T.Args[1])
+		st.assume(x.typeInv(v, p.Ty.Elem, st.alloc))
+		return Val{T: v, Ty: p.Ty.Elem}
 	}
 	x.safe(st, "nil", Not(Eq(p.T, IntLit(0))), n)
 	_, h := x.ptrHeapOf(st, p.Ty.Elem)
